@@ -1,13 +1,14 @@
 """Print the prompt for an independent fault-seeding sub-agent for one property (property text only)."""
 import json, sys
 pid = sys.argv[1]
+suffix = sys.argv[2] if len(sys.argv) > 2 else ""
 prop = None
 for l in open('/verif/properties.jsonl'):
     p = json.loads(l)
     if p['id'] == pid:
         prop = p
-wt = f"/tmp/seed_{pid}"
-out = f"/tmp/seed_{pid}_out"
+wt = f"/tmp/seed{suffix}_{pid}"
+out = f"/tmp/seed{suffix}_{pid}_out"
 print(f"""You are an independent fault-seeding tester for the open-source Python library PorePy (simulation of flow/mechanics in fractured porous media). Your job is to craft realistic *semantic bugs* that break one stated property of the library while slipping past its existing test-suite. You work alone in your own scratch git worktree of the repository at {wt} (already created; it contains the full source under {wt}/src/porepy and tests under {wt}/tests). Do not read or touch anything under /verif, and do not modify /repo (the main checkout) in any way.
 
 How to run code against your worktree: `cd {wt} && PYTHONPATH={wt}/src /venv/bin/python your_script.py` and `cd {wt} && PYTHONPATH={wt}/src /venv/bin/python -m pytest -q -p no:cacheprovider -x <test paths>` (add `--no-cov -n 4` for parallel runs of bigger subsets - the machine is shared, do not use more workers and do not run the whole test-suite, only the relevant sub-directories; a few gmsh/exporter tests are flaky when run in parallel - rerun those serially before concluding anything). Always check `python -c "import porepy; print(porepy.__file__)"` resolves into {wt}.
